@@ -130,6 +130,42 @@ def cases(tier, rng):
                 c.expect = ("reconnect", ident)
                 out.append(c)
                 n += 1
+    # assigned identities are UNIQUE: anonymous peers among peers that announce 16-byte identities which look like the
+    # values a careless generator would hand out (small big-endian counters, all zeros, all ones) — every anonymous peer
+    # gets a label of its own, and messages addressed to an announced identity reach that peer only
+    for shape in ("counters", "edges"):
+        for order in ("anon-first", "anon-last", "interleaved"):
+            announced = ([(k).to_bytes(16, "big") for k in range(1, 7)] if shape == "counters"
+                         else [b"\x00" * 16, b"\xff" * 16, (1).to_bytes(16, "little"), (2 ** 64).to_bytes(16, "big")])
+            plan = ([None, None] + announced) if order == "anon-first" else (announced + [None, None]) if order == "anon-last" \
+                else [x for pair in zip(announced, [None] * len(announced)) for x in pair][: len(announced) + 3]
+            sc = wg.Script()
+            sc.sock(1, "ROUTER")
+            idents, autos = {}, 0
+            for p, ident in enumerate(plan, start=1):
+                sc.attach(1, p, "DEALER", ident)
+                sc.add(f"wire {p}")
+                idents[p] = ident if ident is not None else wg.placeholder(autos)
+                autos += ident is None
+            exp = []
+            for p in idents:
+                fr = [b"from%d" % p]
+                sc.reveal_msg(p, fr)
+                exp.append((p, fr))
+            for _ in range(len(idents) + 1):
+                f = sc.fut()
+                sc.add(f"recv {f} 1", f"poll {f}", f"drop {f}")
+            sends = []
+            for p, ident in idents.items():
+                g = sc.fut()
+                sc.add(f"send {g} 1 {wg.mtok([ident, b'to%d' % p])}", f"poll {g}", f"drop {g}")
+                for q in idents:
+                    sc.add(f"wire {q}")
+                sends.append((ident, p, [b"to%d" % p]))
+            c = sc.case(f"assigned-vs-announced#{n}", ["assigned-vs-announced"])
+            c.expect = ("mixed", idents, exp, sends)
+            out.append(c)
+            n += 1
     # labelling: two peers, all interleavings of their messages
     for a1, a2 in [(None, None), (b"x", None), (b"x", b"y" * 255)]:
         seqs = set(itertools.permutations([1, 1, 2, 2]))
